@@ -201,7 +201,7 @@ theorem C05_client_headers_fail_with_forged_metadata :
         cliSend none (call { send := none, accept := configure true [] } .unary umdEnc umdAcc 1 resp) = true ∧
         cliAdvertise [] (call { send := none, accept := configure true [] } .unary umdEnc umdAcc 1 resp) = true) := by
   intro h
-  have := h [gzipName] [gzipName] ⟨[], none, [⟨0, .raw⟩], some 0⟩
+  have := h [gzipName] [gzipName] { encVals := [], hdrStatus := none, frames := [⟨0, .raw⟩], trlStatus := some 0 }
   revert this
   decide
 
@@ -215,12 +215,13 @@ theorem C05_client_advertises_accepted (send : Option Enc) (acc : List Call) (sh
   call_advertise _ _ (configure_agree true acc) shape umdEnc k resp
 
 /-- A response whose `grpc-encoding` is not enabled for receiving is refused with
-UNIMPLEMENTED; no other response is. -/
+UNIMPLEMENTED; no other response is (guard: the peer's own status, which the client passes on
+verbatim, is not itself such a refusal). -/
 theorem C05_client_refuses_unsupported (send : Option Enc) (acc : List Call) (shape : Shape)
-    (umdEnc umdAcc : List Bytes) (k : Nat) (resp : CliResp) :
+    (umdEnc umdAcc : List Bytes) (k : Nat) (resp : CliResp) (hp : resp.peerCls ≠ .unsupported) :
     cliRefuse (enabledAfter acc) resp
       (call { send, accept := configure true acc } shape umdEnc umdAcc k resp) = true :=
-  call_refuse _ _ (configure_agree true acc) shape umdEnc umdAcc k resp
+  call_refuse _ _ (configure_agree true acc) shape umdEnc umdAcc k resp hp
 
 /-- Client side of "flag without negotiated encoding ⇒ INTERNAL". -/
 theorem C05_client_flag_without_encoding (send : Option Enc) (acc : List Call) (shape : Shape)
